@@ -120,7 +120,26 @@ func jwkFor(ty string) map[string]interface{} {
 	return map[string]interface{}{"kty": "EC", "crv": "P-256", "x": "PUymIqdtF_qxaAqPABSw-C-owT1KYYQbsMKFM-L9fJA", "y": "nM84jDHCMOTGTh_ZdHq4dBBdo4Z5PkEOW9jA8z8IsGc"}
 }
 
+// anchor origins are opaque JSON values: the flag "origin" is realised as each of these
+var originVariants = []interface{}{"https://origin.example.com", []interface{}{"https://a.example.com", "https://b.example.com"},
+	map[string]interface{}{"domain": "example.com", "weight": float64(3)}, float64(7), "", true}
+
 func runProjection(cs *projCase) (projOut, error) {
+	if !cs.C.Origin {
+		return runProjectionWith(cs, nil)
+	}
+	var out projOut
+	var err error
+	for _, o := range originVariants {
+		out, err = runProjectionWith(cs, o)
+		if err != nil || !out.Meta.HasAnchorOrigin || len(out.Problems) > 0 {
+			return out, err
+		}
+	}
+	return out, err
+}
+
+func runProjectionWith(cs *projCase, origin interface{}) (projOut, error) {
 	doc := map[string]interface{}{}
 	var keys []interface{}
 	for i, k := range cs.C.Keys {
@@ -167,7 +186,7 @@ func runProjection(cs *projCase) (projOut, error) {
 		rm.UpdateCommitment, rm.RecoveryCommitment = "uc-commitment", "rc-commitment"
 	}
 	if cs.C.Origin {
-		rm.AnchorOrigin = "https://origin.example.com"
+		rm.AnchorOrigin = origin
 	}
 	if cs.C.VersionID {
 		rm.VersionID = "ref-version"
@@ -311,7 +330,7 @@ func runProjection(cs *projCase) (projOut, error) {
 	}
 	out.Meta.HasUpdateCommitment = eq(method, "updateCommitment", "uc-commitment")
 	out.Meta.HasRecoveryCommitment = eq(method, "recoveryCommitment", "rc-commitment")
-	out.Meta.HasAnchorOrigin = eq(method, "anchorOrigin", "https://origin.example.com")
+	out.Meta.HasAnchorOrigin = eq(method, "anchorOrigin", origin)
 	out.Meta.HasCanonicalID = eq(full.Meta, "canonicalId", "did:sidetree:canon:"+projSuffix)
 	out.Meta.HasEquivalentID = eq(full.Meta, "equivalentId", []interface{}{"did:sidetree:canon:" + projSuffix, "did:sidetree:eq1:" + projSuffix})
 	out.Meta.HasCreated = eq(full.Meta, "created", time.Unix(1700000000, 0).UTC().Format(time.RFC3339))
@@ -411,6 +430,6 @@ func C19(c *ev.Ctx) {
 	c.Cov.Evaluations = int64(len(cases))
 	c.Cov.DistinctNontrivial = nt
 	c.Cov.Exhaustive = true
-	c.Cov.Rule = "three sub-products enumerated by TLC: (keys) every sequence of <= MaxKeys internal keys over 6 key types x 5 purpose sets x {JWK, base58} x base context x method context; (services) 0-2 services x 0-2 aliases x options; (metadata) options x published x deactivated x commitments x anchor origin x version id x updated time; the real DID transformer output (with the real transformation-info helpers of the document handler) is abstracted and compared with Project(c): verification methods (id form, type, controller, material re-encoding checked against an independent base58), the five relationship sections, contexts and their order, service ids and carried-over members, aliases, absence of the internal publicKey member, every metadata field and its value. Non-trivial: >= 1 key."
+	c.Cov.Rule = "three sub-products enumerated by TLC: (keys) every sequence of <= MaxKeys internal keys over 6 key types x 5 purpose sets x {JWK, base58} x base context x method context; (services) 0-2 services x 0-2 aliases x options; (metadata) options x published x deactivated x commitments x anchor origin (realised as string, list, object, number, empty string, boolean) x version id x updated time; the real DID transformer output (with the real transformation-info helpers of the document handler) is abstracted and compared with Project(c): verification methods (id form, type, controller, material re-encoding checked against an independent base58), the five relationship sections, contexts and their order, service ids and carried-over members, aliases, absence of the internal publicKey member, every metadata field and its value. Non-trivial: >= 1 key."
 	c.Finish("model_checking")
 }
